@@ -403,4 +403,92 @@ def circumradiusSq (c : Center) (src : CircSource) (pos : V3) (verts : List V3) 
   | .shape dims uv => max3 dims * max3 dims * maxQ (uv.map V3.normSq)
   | .fallback => fallbackCircSq c pos verts
 
+/-! ## round 4: `MeshVolumeRegion.intersects(MeshSurfaceRegion)` (three passes) -/
+
+structure SurfObs where
+  bbOverlap : Bool      -- the axis-aligned bounding boxes overlap in all three dimensions
+  collide : Bool        -- collision_manager.in_collision_internal()  (volume mesh vs SurfaceCollisionTrimesh)
+  hasFirst : Bool       -- self.containsPoint(other.mesh.vertices[0])
+  deriving Repr, Inhabited
+
+inductive SExit where
+  | p1 | p2Hit | p3
+  deriving DecidableEq, Repr, Inhabited
+
+def SExit.name : SExit → String
+  | .p1 => "p1" | .p2Hit => "p2Hit" | .p3 => "p3"
+
+structure SurfCfg where
+  p1Ret : Bool          -- `if not bb_overlap: return False`
+  p2Ret : Bool          -- `if surface_collision: return True`
+  p3Negate : Bool       -- `return self.containsPoint(other.mesh.vertices[0])`  (no `not`)
+
+def intersectsSurface (c : SurfCfg) (o : SurfObs) : Bool × SExit :=
+  if !o.bbOverlap then (c.p1Ret, .p1)
+  else if o.collide then (c.p2Ret, .p2Hit)
+  else ((if c.p3Negate then !o.hasFirst else o.hasFirst), .p3)
+
+/-! ## round 4: `MeshVolumeRegion.intersects(PolygonalFootprintRegion)` and the cache of
+`PolygonalFootprintRegion.approxBoundFootprint`
+
+The footprint (an infinite vertical cylinder) is cut to a slab `(centre, height)` = `[centre - height/2,
+centre + height/2]` covering the vertical extent `[lo, hi]` of the mesh, and the volume/volume procedure is
+run on the bounded footprint.  `approxBoundFootprint` keeps **one** cached slab per footprint and re-uses it
+when it covers the requested one; otherwise it builds a padded slab and caches it. -/
+
+/-- Python's `max(a, b)` on numbers -/
+def maxR (a b : Rat) : Rat := if a < b then b else a
+
+structure SlabCfg where
+  /-- `mesh_height = vertical_bounds[1] - vertical_bounds[0] + 1` as a function of (lo, hi) -/
+  height : Rat → Rat → Rat
+  /-- `centerZ = (vertical_bounds[1] + vertical_bounds[0]) / 2` -/
+  center : Rat → Rat → Rat
+  /-- the two comparisons of the cache test, operands as functions of (prevCentre, prevHeight, centre, height) -/
+  topLhs : Rat → Rat → Rat → Rat → Rat
+  topCmp : Cmp
+  topRhs : Rat → Rat → Rat → Rat → Rat
+  botLhs : Rat → Rat → Rat → Rat → Rat
+  botCmp : Cmp
+  botRhs : Rat → Rat → Rat → Rat → Rat
+  conn : Conn
+  /-- `padded_height = 100 * max(1, centerZ) * height` as a function of (centre, height) -/
+  padded : Rat → Rat → Rat
+
+/-- lower / upper end of a slab `(centre, height)` (what `boundFootprint` extrudes to) -/
+def slabLo (s : Rat × Rat) : Rat := s.1 - s.2 / 2
+def slabHi (s : Rat × Rat) : Rat := s.1 + s.2 / 2
+
+/-- `approxBoundFootprint(centerZ, height)` on the cache state: (slab used, new cache, cache was re-used) -/
+def approxBound (c : SlabCfg) (cache : Option (Rat × Rat)) (cz h : Rat) : (Rat × Rat) × Option (Rat × Rat) × Bool :=
+  match cache with
+  | some (pc, ph) =>
+    if c.conn.eval (c.topCmp.eval (c.topLhs pc ph cz h) (c.topRhs pc ph cz h))
+                   (c.botCmp.eval (c.botLhs pc ph cz h) (c.botRhs pc ph cz h)) then ((pc, ph), some (pc, ph), true)
+    else ((cz, c.padded cz h), some (cz, c.padded cz h), false)
+  | none => ((cz, c.padded cz h), some (cz, c.padded cz h), false)
+
+/-- the slab used by `MeshVolumeRegion.intersects(PolygonalFootprintRegion)` for a mesh of vertical extent `[lo, hi]` -/
+def footprintSlab (c : SlabCfg) (cache : Option (Rat × Rat)) (lo hi : Rat) : (Rat × Rat) × Option (Rat × Rat) × Bool :=
+  approxBound c cache (c.center lo hi) (c.height lo hi)
+
+/-- a whole history of queries `(lo, hi)` against one footprint, starting from the empty cache: the slabs used -/
+def slabHistory (c : SlabCfg) : Option (Rat × Rat) → List (Rat × Rat) → List (Rat × Rat)
+  | _, [] => []
+  | cache, (lo, hi) :: rest =>
+    let r := footprintSlab c cache lo hi
+    r.1 :: slabHistory c r.2.1 rest
+
+/-! ## round 4: `MeshVolumeRegion.containsRegionInner(MeshVolumeRegion)` -/
+
+structure InnerCfg where
+  /-- `reg.difference(self)` (false) or `self.difference(reg)` (true) -/
+  swapped : Bool
+  negate : Bool          -- `return isinstance(diff_region, EmptyRegion)` (no `not`)
+
+/-- `regMinusSelfEmpty` / `selfMinusRegEmpty`: emptiness of the two possible boolean differences -/
+def containsRegionInner (c : InnerCfg) (regMinusSelfEmpty selfMinusRegEmpty : Bool) : Bool :=
+  let e := if c.swapped then selfMinusRegEmpty else regMinusSelfEmpty
+  if c.negate then !e else e
+
 end Scenic.Solid
